@@ -28,7 +28,8 @@ Record Arith (N : Type) := mkArith {
   a_two : N;
   a_sqrt2 : N;                     (* np.sqrt(2) *)
   a_eps : N;                       (* transform.epsilon = 1e-14 *)
-  a_round14 : N -> N               (* float(round(np.float64, 14)) *)
+  a_round14 : N -> N;              (* float(round(np.float64, 14)) *)
+  a_finite : N -> bool             (* np.isfinite *)
 }.
 
 Record Special (N : Type) := mkSpecial {
@@ -44,6 +45,7 @@ Record Special (N : Type) := mkSpecial {
 Arguments a_add {N}. Arguments a_sub {N}. Arguments a_mul {N}. Arguments a_div {N}.
 Arguments a_leb {N}. Arguments a_ltb {N}. Arguments a_zero {N}. Arguments a_one {N}.
 Arguments a_two {N}. Arguments a_sqrt2 {N}. Arguments a_eps {N}. Arguments a_round14 {N}.
+Arguments a_finite {N}.
 Arguments s_erfinv {N}. Arguments s_ndtr {N}. Arguments s_ndtri {N}. Arguments s_log10 {N}.
 Arguments s_pow10 {N}. Arguments s_exp {N}. Arguments s_ln {N}.
 
@@ -52,6 +54,11 @@ Inductive family := Uniform | LogUniform | Gaussian | LogGaussian.
 (* which UniformPrior.value_for is modelled: the code as it is (round after the limit
    check), or the proposed repair (proposed_fixes/C02-uniform-round-after-check.diff) *)
 Inductive variant := Current | Repaired.
+
+(* which LogUniformPrior.__init__ is modelled: scale = log10(upper / lower) as coded, or the proposed repair
+   (proposed_fixes/C02-loguniform-ratio-overflow.diff): log10(upper) - log10(lower) when the ratio overflows *)
+Inductive lu_variant := LUCurrent | LURatioGuard.
+Definition loguniform_variant : lu_variant := LUCurrent.
 
 Inductive transform (N : Type) :=
 | TPhi                              (* phi_transform  = FunctionTransform(ndtri, ndtr, ...) *)
@@ -138,13 +145,20 @@ Section Generic.
   Definition msg_cdf (m : message N) (x : N) : N :=
     normal_cdf (m_mean m) (m_sigma m) (msg_transform (m_transforms m) x).
 
+  (* LogUniformPrior.__init__: scale of the linear shift *)
+  Definition loguniform_scale (lv : lu_variant) (lo hi : N) : N :=
+    match lv with
+    | LUCurrent => s_log10 S (hi / lo)
+    | LURatioGuard => if a_finite A (hi / lo) then s_log10 S (hi / lo) else s_log10 S hi - s_log10 S lo
+    end.
+
   (* the message each prior constructor builds *)
   Definition message_of (p : prior N) : message N :=
     match p_family p with
     | Uniform =>
         mkMessage zero one [TPhi; TLinear (p_lo p) (p_hi p - p_lo p)]
     | LogUniform =>
-        mkMessage zero one [TPhi; TLinear (s_log10 S (p_lo p)) (s_log10 S (p_hi p / p_lo p)); TLog10]
+        mkMessage zero one [TPhi; TLinear (s_log10 S (p_lo p)) (loguniform_scale loguniform_variant (p_lo p) (p_hi p)); TLog10]
     | Gaussian => mkMessage (p_mean p) (p_sigma p) []
     | LogGaussian => mkMessage (p_mean p) (p_sigma p) [TLog]
     end.
@@ -191,6 +205,18 @@ Section Generic.
   Definition prior_random (var : variant) (p : prior N) (l u r : N) : result N :=
     prior_value_for var p false (random_unit p l u r).
 
+  (* priors whose message is not the one their own constructor would build (Prior.with_limits keeps the
+     message of the prior it was derived from): [pm] supplies the message, [pg] the class (rounding) and the
+     limits of the gate.  For pm = pg these are the functions above. *)
+  Definition dprior_value_for (var : variant) (pm pg : prior N) (ignore : bool) (u : N) : result N :=
+    post var pg ignore (msg_value_for (message_of pm) u).
+  Definition drandom_unit (pm pg : prior N) (l u r : N) : N :=
+    let a := pymax l (unit_value_for pm (p_lo pg)) in
+    let b := pymin u (unit_value_for pm (p_hi pg)) in
+    a + (b - a) * r.
+  Definition dprior_random (var : variant) (pm pg : prior N) (l u r : N) : result N :=
+    dprior_value_for var pm pg false (drandom_unit pm pg l u r).
+
   (* AbstractPriorModel.vector_from_unit_vector: priors in id order, zipped with the unit vector *)
   Fixpoint vector_for (var : variant) (ignore : bool) (ps : list (prior N)) (us : list N) : vresult N :=
     match ps, us with
@@ -234,7 +260,7 @@ Definition fround14 (x : float) : float :=
 
 Definition FArith : Arith float :=
   mkArith float PrimFloat.add PrimFloat.sub PrimFloat.mul PrimFloat.div PrimFloat.leb PrimFloat.ltb
-          0%float 1%float 2%float (PrimFloat.sqrt 2%float) feps fround14.
+          0%float 1%float 2%float (PrimFloat.sqrt 2%float) feps fround14 ffinite.
 
 (* oracle table: (function id, argument, value); ids: 1 erfinv 2 ndtr 3 ndtri 4 log10 5 pow10 6 exp 7 log *)
 Definition table := list (positive * float * float).
@@ -280,6 +306,7 @@ Inductive obs :=
 
 Inductive case :=
 | CPrior (p : prior float) (t : table) (observations : list obs)
+| CDerived (pm pg : prior float) (t : table) (observations : list obs)   (* message of pm, class and limits of pg *)
 | CVector (ps : list (prior float)) (t : table) (us : list float) (ignore : bool) (expected : vresult float).
 
 Definition check_obs (p : prior float) (t : table) (o : obs) : bool :=
@@ -292,9 +319,20 @@ Definition check_obs (p : prior float) (t : table) (o : obs) : bool :=
   | ORandom l u r e => fresult_eqb (prior_random A S code_variant p l u r) e
   end.
 
+Definition check_dobs (pm pg : prior float) (t : table) (o : obs) : bool :=
+  let A := FArith in let S := FSpecial t in
+  match o with
+  | OValue u ignore e => fresult_eqb (dprior_value_for A S code_variant pm pg ignore u) e
+  | ORaw u e => fbits_eqb (msg_value_for A S (message_of A S pm) u) e
+  | OUnit x e => fbits_eqb (unit_value_for A S pm x) e
+  | OLimits lo hi => fbits_eqb (unit_value_for A S pm (p_lo pg)) lo && fbits_eqb (unit_value_for A S pm (p_hi pg)) hi
+  | ORandom l u r e => fresult_eqb (dprior_random A S code_variant pm pg l u r) e
+  end.
+
 Definition check_case (c : case) : bool :=
   match c with
   | CPrior p t os => forallb (check_obs p t) os
+  | CDerived pm pg t os => forallb (check_dobs pm pg t) os
   | CVector ps t us ignore e => fvresult_eqb (vector_for FArith (FSpecial t) code_variant ignore ps us) e
   end.
 
